@@ -2,6 +2,7 @@ import Genshi.Wire
 import Genshi.WireCore
 import Genshi.Model.Tf
 import Genshi.Model.TfLazy
+import Genshi.Model.TfTrace
 import Genshi.Model.TfFill
 import Genshi.Model.TfFillSpec
 namespace Driver.C20
@@ -71,6 +72,13 @@ def op? : Sexp → Option Op
       let t ← QName.ofSexp? t; let a ← attrsOfSexp? a; let kids ← streamOfSexp? kids; pure (.wrap t a kids)
   | .list [.atom "attrfn", n, .str src] => do
       let n ← QName.ofSexp? n; pure (.attrFn n fun _ a => attrGet a src)
+  -- other callables `value(name, event)`: the local name of the element, a constant, the number of attributes
+  | .list [.atom "attrfn", n, .list [.atom "tag"]] => do
+      let n ← QName.ofSexp? n; pure (.attrFn n fun t _ => some t.loc)
+  | .list [.atom "attrfn", n, .list [.atom "const", .str v]] => do
+      let n ← QName.ofSexp? n; pure (.attrFn n fun _ _ => some v)
+  | .list [.atom "attrfn", n, .list [.atom "count"]] => do
+      let n ← QName.ofSexp? n; pure (.attrFn n fun _ a => some (toString a.length).toList)
   | .list [.atom "replace", c] => do let c ← content? c; pure (.replace c)
   | .list [.atom "before", c] => do let c ← content? c; pure (.before c)
   | .list [.atom "after", c] => do let c ← content? c; pure (.after c)
@@ -117,20 +125,33 @@ def handle : List Sexp → Option Sexp
       let ops ← ops.mapM op?
       let ids := (dedup (writes ops)).mergeSort
       let lazy := runLazy growth ops (fun _ => []) (markAll s)
+      -- the link-by-link trace semantics gives the same as the lazy model (theorem `lazy_trace`),
+      -- whenever reads come after writes (`lazyRaw`)
+      let traceAgrees : Bool :=
+        !lazyRaw ops ||
+        (match lazy, runTrace ops (fun _ => []) (markAll s) with
+         | .ok (out, b), some (out', b') => decide (out' = out) && ids.all (fun i => decide (b' i = b i))
+         | .ok _, none => false
+         | _, some _ => false
+         | _, none => true)
       if !stagewise [] [] ops then
         -- the lazy interleaving is observable: the chain as the code runs it
         match lazy with
         | .ok (out, b) =>
             pure (.list [.atom "ok", mstreamToSexp out, bufFToSexp b ids, streamToSexp (unmark out),
-                         ofBool (lazySelOk growth (segs ops) (fun _ => []) (markAll s)), .atom "lazy"])
-        | _ => pure (.atom "err")
+                         -- the assumption checks of the theorems: `lazySelOk` (per link while it runs) and, when
+                         -- reads come after writes, `traceSelOk` (hypothesis of `lazy_raw_chain_wellnested`)
+                         ofBool (lazySelOk growth (segs ops) (fun _ => []) (markAll s) &&
+                                 (!lazyRaw ops || traceSelOk (segs ops) (fun _ => []) (markAll s))),
+                         .atom (if !traceAgrees then "lazy-trace-differs" else if lazyRaw ops then "lazy+trace" else "lazy")])
+        | _ => pure (if traceAgrees then .atom "err" else .atom "err-trace-differs")
       else
       match transformMarked ops s with
-      | none => pure (.list [.atom "err", ofBool (match lazy with | .ok _ => false | _ => true)])
+      | none => pure (.list [.atom "err", ofBool ((match lazy with | .ok _ => false | _ => true) && traceAgrees)])
       | some (out, b) =>
           -- stage-wise model; last item: the lazy model gives the same (theorem `lazy_agrees_stagewise`)
           let agree := match lazy with
-            | .ok (out', b') => decide (out' = out) && ids.all (fun i => decide (b' i = b.get i))
+            | .ok (out', b') => decide (out' = out) && ids.all (fun i => decide (b' i = b.get i)) && traceAgrees
             | _ => false
           pure (.list [.atom "ok", mstreamToSexp out, bufsToSexp b ids, streamToSexp (unmark out),
                        ofBool (chainSelOk ops [] (markAll s)), ofBool agree])
@@ -146,6 +167,14 @@ def handle : List Sexp → Option Sexp
         | .list [k, x] => do let k ← k.toNat?; pure (k, x)
         | _ => none
       pure (.list ((history [[root]] ds).map fun snap => .list (snap.map .list)))
+  | [.atom "derive2", root, .list ds] => do
+      -- … of a mixed history: `(one k x)` = an operation method on object k (new link x),
+      -- `(cat k j)` = `t_k.apply(t_j)` (chain concatenation, no new link)
+      let ds ← ds.mapM fun
+        | .list [.atom "one", k, x] => do let k ← k.toNat?; pure (DStep.one k x)
+        | .list [.atom "cat", k, j] => do let k ← k.toNat?; let j ← j.toNat?; pure (DStep.cat k j)
+        | _ => none
+      pure (.list ((historyD [[root]] ds).map fun snap => .list (snap.map .list)))
   | [.atom "fillspec", c, s] => do
       -- the documentation semantics of the filler on the forest `parse` reads; `outside` = the
       -- forest is not in `okForest` (the recorded findings), `unmodelled` = not a well-nested stream
